@@ -183,6 +183,16 @@ def reader_only_bounds(F, ck, pairs, sp):
                     continue
                 lids = {y['id'] for y in walk(c['l']) if y.get('k') == 'Local' and y.get('n') != 'self'}
                 rids = {y['id'] for y in walk(c['r']) if y.get('k') == 'Local' and y.get('n') != 'self'}
+                ctx_side = (lids and lids <= set(decoded) and rids and not (rids & set(decoded)) and not any(y.get('k') == 'MCall' and (y.get('n') or '').startswith(('read_', 'remaining')) for y in walk(c['r']))) or \
+                           (rids and rids <= set(decoded) and lids and not (lids & set(decoded)) and not any(y.get('k') == 'MCall' and (y.get('n') or '').startswith(('read_', 'remaining')) for y in walk(c['l'])))
+                if ctx_side:
+                    # a decoded value compared with the decoding context (circuit data): same argument - the writer must refuse what the reader refuses
+                    wok = wf.body is not None and any(y.get('k') == 'Bin' and y.get('op') in CMP for y in walk(wf.body))
+                    dn = decoded[sorted((lids | rids) & set(decoded))[0]]
+                    ck.ob('R17.8', 'context-bound:%s:%s' % (name, dn), wok, 'the writer checks a relation as well' if wok else
+                          'READER-ONLY CHECK: %s refuses a stream when the decoded `%s` fails a comparison with the decoding context, but %s writes it without any check: '
+                          'an object the writer accepts and encodes (e.g. a gate that exactly fills the routed wires) is refused when read back' % (rf.qual, dn, wf.qual), x.get('s'))
+                    continue
                 if lids and rids and lids <= set(decoded) and rids <= set(decoded):
                     # a relation between two decoded values: only a writer that checks the same relation can guarantee it
                     wok = wf.body is not None and any(y.get('k') == 'Bin' and y.get('op') in CMP for y in walk(wf.body))
